@@ -271,7 +271,9 @@ func childC05(args []string) {
 			rec.Entered = entered
 			logins := make(chan common.RemoteUserLogin) // nobody ever receives
 			cctx, cancel := context.WithCancel(ctx)
-			proc := sshd.NewSshdProcessor(cctx, logins, vNode, vMID, rec.Writer(), newMetrics())
+			// the processor is built with a context that is never cancelled: only the
+			// context handed to the call is (the worker's own context is what counts)
+			proc := sshd.NewSshdProcessor(context.Background(), logins, vNode, vMID, rec.Writer(), newMetrics())
 			done := make(chan error, 1)
 			if pre {
 				cancel()
